@@ -161,8 +161,14 @@ func runC05(r *Run) {
 	r.Has("consensus/storage.(*DB).GetElectionResultByHash", "recv.electionCache.Get(a0)", "LRU keyed by the same hash")
 
 	// codec agreement of the persisted election data
+	electionCodecRules(r)
+}
+
+// electionCodecRules: what is persisted for an election is the computed election, element for element
+// (shared by C05, C02 — a restarted or cache-cold node reads the stored record — and C06).
+func electionCodecRules(r *Run) {
 	um := "consensus/storage.(*ElectionData).Unmarshal"
-	r.NoMakeThenAppend([]string{um, "consensus/storage.(*ElectionData).Marshal", "consensus/storage.(*Point).Marshal", "consensus/storage.(*Point).Unmarshal", "common/types.ToPillarDelegation", gp}, "a slice created with a non-zero length and then appended to doubles its length with zero entries (the decoded schedule would not have NodeCount producers)")
+	r.NoMakeThenAppend([]string{um, "consensus/storage.(*ElectionData).Marshal", "consensus/storage.(*Point).Marshal", "consensus/storage.(*Point).Unmarshal", "common/types.ToPillarDelegation", "consensus.(*electionManager).generateProducers"}, "a slice created with a non-zero length and then appended to doubles its length with zero entries (the decoded schedule would not have NodeCount producers)")
 	r.Has(um, "store new(types.PillarDelegation).Weight = big.NewInt(0).SetBytes(new(storage.ElectionDataProto).Delegations[(iter+1)].Weight)", "weight round-trips")
 	r.Has(um, "store new(types.PillarDelegation).Name = new(storage.ElectionDataProto).Delegations[(iter+1)].Name", "name round-trips")
 	r.Has(um, "store new(types.PillarDelegation).Producing = types.BytesToAddress(new(storage.ElectionDataProto).Delegations[(iter+1)].ProducingAddress)#0", "producing address round-trips")
